@@ -42,7 +42,7 @@ def ftcodes_from_repo():
     return dict(prog.enum('FIX8::FieldTrait::FieldType')['e'])
 
 
-def validate(ctx, name, target=None, rid='R13.1', only_groups=False, gid='R14.1'):
+def validate(ctx, name, target=None, rid='R13.1', only_groups=False, gid='R14.1', only_fields=False):
     """compare one generated target with its schema; returns stats dict"""
     res = gen.generate([target or name])
     key = (target or {'prefix': name})['prefix'] if target else name
@@ -119,12 +119,12 @@ def validate(ctx, name, target=None, rid='R13.1', only_groups=False, gid='R14.1'
                 check_def(df.groups[k], mm.group, where + '/' + mm.name, True)
 
     # header / trailer / messages
-    for nm, members in (('header', sc.header), ('trailer', sc.trailer)):
+    for nm, members in (() if only_fields else (('header', sc.header), ('trailer', sc.trailer))):
         cls = ns + nm
         if cls in m.records:
             check_def(m.definition(cls), members, nm, False)
     table = {mt: (cls, n) for (mt, cls, n) in m.msgtable}
-    if not only_groups:
+    if not only_groups and not only_fields:
         mts = [x[0] for x in m.msgtable]
         pseudo = {'header', 'trailer'}      # the generated table also carries the two framing pseudo-messages
         ctx.check(all(a.encode('latin1') < b.encode('latin1') for a, b in zip(mts, mts[1:])), rid, tag + ':msgtable#sorted', t['schema'],
@@ -132,7 +132,7 @@ def validate(ctx, name, target=None, rid='R13.1', only_groups=False, gid='R14.1'
         ctx.check(set(mts) - pseudo == set(sc.messages), rid, tag + ':msgtable#keys', t['schema'], 'message table keys = schema message types',
                   'message types differ: generated-only %s, schema-only %s' % (sorted(set(mts) - set(sc.messages))[:5], sorted(set(sc.messages) - set(mts))[:5]))
     for mt, info in sc.messages.items():
-        if mt not in table:
+        if mt not in table or only_fields:
             continue
         cls, n = table[mt]
         stats['messages'] += 1
